@@ -73,6 +73,16 @@ case "${1:-}" in
     build mc
     exec "$BIN/mc" replay "$2"
     ;;
+  C19)
+    build mc
+    tag=$(echo "$REPO" | md5sum | cut -c1-8)
+    (cd "$VERIF/mc" && go build -modfile="$VERIF/.build/go.$tag.mod" -tags verif -o "$BIN/gophersat.$tag" github.com/crillab/gophersat) || { echo "ERROR build of gophersat failed"; exit 2; }
+    export VERIF_GOPHERSAT_BIN="$BIN/gophersat.$tag"
+    rm -rf "$VERIF/.build/cli"
+    "$BIN/mc" check "$1" "${2:-quick}"; rc=$?
+    rm -rf "$VERIF/.build/cli"
+    exit $rc
+    ;;
   C*)
     build mc
     exec "$BIN/mc" check "$1" "${2:-quick}"
